@@ -46,7 +46,7 @@ func NewDualView() *View {
 
 func NewViewFromGroupedRecord(ctx context.Context, flags *option.Flags, referenceRecord ReferenceRecord) (*View, error) {
 	view := NewView()
-	view.Header = referenceRecord.view.Header
+	view.Header = referenceRecord.view.Header.Copy()
 	record := referenceRecord.view.RecordSet[referenceRecord.recordIndex]
 
 	view.RecordSet = make(RecordSet, record.GroupLen())
